@@ -9,6 +9,11 @@ SMALL/denominator (exact for short-decimal increments, affine units included); o
 Tie: every modelled function is run on the real code and on the model (`drv_frac`) on seeded inputs; the
 oracle below states C18 on the real API alone.
 
+Programs (`op = hist`): sequences of constructions and in-place changes over a pool of Fraction / FractionValue /
+FractionScalar objects; the model keeps the objects as independent values (theorems pool_step_independent,
+pool_run_projection, pool_run_independent, fv_without_fraction_denotes_number, fs_from_float_denotes_float), the real
+side reports float(), str() and the parts of EVERY pool member after EVERY statement.
+
 Three input classes on which the unchanged code violates C18 are reproduced by the model (and proved as
 `*_counterexample` theorems): see KNOWN_CLASSES / FINDING_CASES."""
 import copy
@@ -30,8 +35,15 @@ RULE = ("seeded streams, one per modelled function: Fraction(a,b) (ints, short d
         "over ordered unit pairs of every quantity type of a private POSC database (all pairs in the thorough tier), "
         "order/==/validity and the registered UnitDatabase.Convert path; direct calls of the classmethod "
         "ConvertFractionValue(value, quantity type string | Quantity in from_unit / to_unit / a third unit, from_unit, to_unit) "
-        "over scale and offset units with number-only, fraction-only and mixed values; distinct = distinct model line; "
-        "non-trivial = the real call returned a value")
+        "over scale and offset units with number-only, fraction-only and mixed values; Fraction ** (int, integral float, "
+        "infinite, non-number), the in-place setters (.numerator/.denominator/[i] = int, float, 0, inf, None, str; reduce), "
+        "len/iteration/indexing, sequence operands of every operator; GetLocalizedString/GetLocalizedFraction, "
+        "CreateFromString(consider_locale=False), CreateFromFloat(None); PROGRAMS of 5-12 statements over a pool of objects "
+        "(every constructor form: FractionValue(), (n), (number=n), (n, (a, b)), (n, Fraction), CreateFromFloat, CreateFromString, "
+        "copy.copy, Fraction arithmetic on pool members, FractionScalar(cat, value=float | FractionValue, unit), GetValue(unit), "
+        "ConvertFractionValue; every mutator: fraction setters through fv.fraction / fs.GetValue().fraction, SetNumber/.number, "
+        "SetFraction/.fraction) where after EVERY statement every object of the pool is compared (parts, str(), float(), for "
+        "Fractions len/iteration/indexing); distinct = distinct model line; non-trivial = the real call returned a value")
 EXHAUSTIVE = {"quick": False, "thorough": False}
 ASSUMPTIONS = [
     "float results stay within K*eps*M (K=64) of the exact model: checked on every run, not proved",
@@ -46,8 +58,14 @@ ASSUMPTIONS = [
     "category), value); constructor argument juggling is C19's, memo tables C05's/C15's",
     "value limits (CheckValidity) are exercised on a private 5-unit database with 8 categories registered identically "
     "on both sides (no shipped category has limits)",
-    "not modelled: Fraction.__pow__/__setitem__/__getitem__/__iter__, GetLocalizedString/Fraction (locale formats), "
-    "__repr__, infinite or NaN numbers inside a FractionValue",
+    "not modelled: Fraction ** non-integral exponent, __repr__, locales other than C, infinite or NaN numbers inside a "
+    "FractionValue, the float -0.0 (its text '-0' is not compared), float underflow below 5e-324 (the only way into "
+    "CreateFromFloat's FindNumerator loop and `value == 0.0` branch)",
+    "programs: a Fraction object handed to FractionValue(...)/SetFraction is kept by reference by the code, so the programs "
+    "always hand over a fresh one (the model keeps objects as independent values: pool_step_independent, pool_run_projection); "
+    "after a unit conversion whose converted fraction differs by float rounding the comparison of that program stops there",
+    "a program the oracle finds failing is re-run in a fresh interpreter (state an earlier program left in the library is "
+    "not part of a replay)",
 ]
 
 OPS_CMP = ("eq", "ne", "lt", "le", "gt", "ge")
@@ -209,18 +227,32 @@ def g_operand(rng):
     r = rng.random()
     if r < 0.5:
         return dict(t="frac", x=g_pair(rng))
-    if r < 0.9:
+    if r < 0.88:
         return dict(t="num", v=g_number(rng))
+    if r < 0.92:
+        return dict(t="seq", kind=rng.choice(SEQ_KINDS))
     return dict(t="num", v=rng.choice([["inf"], ["-inf"], ["none"], _I(0), _F(0.0)]))
+
+
+SEQ_KINDS = ("list", "tuple", "str", "dict", "range")
+
+
+def _seq_obj(kind):
+    """an operand that is no number: `classify` calls it a sequence"""
+    return {"list": [1, 2], "tuple": (1, 2), "str": "ab", "dict": {}, "range": range(2)}[kind]
 
 
 def _operand_enc(o):
     if o["t"] == "frac":
         return dict(t="frac", x=qstr(Q(o["x"][0], o["x"][1])))
+    if o["t"] == "seq":
+        return dict(t="seq")
     return dict(t="num", v=_enc(o["v"]))
 
 
 def _operand_obj(o):
+    if o["t"] == "seq":
+        return _seq_obj(o["kind"])
     return _fr(o["x"]) if o["t"] == "frac" else _obj(o["v"])
 
 
@@ -259,14 +291,19 @@ def c_fv_cmp(f, a, b):
     return dict(op="fv_cmp", f=f, a=_fv_enc(a), b=be, _t=dict(a=a, b=b))
 
 
-def c_parse(text):
-    return dict(op="fv_parse", text=text, _t=dict())
+def c_parse(text, cl=True):
+    """CreateFromString(text) / CreateFromString(text, consider_locale=False)"""
+    if cl:
+        return dict(op="fv_parse", text=text, _t=dict())
+    return dict(op="fv_parse", text=text, cl=False, _t=dict(consider_locale=False))
 
 
 def c_cff(spec):
     if _fin(spec):
         x = _obj(spec)
         d = qstr(exact(x)) if isinstance(x, int) else qstr(Q(repr(x)))
+    elif spec[0] == "none":
+        d = "none"
     else:
         d = "bad"
     return dict(op="cff", d=d, _t=dict(x=spec))
@@ -611,10 +648,661 @@ def s_cfv(ctx, rng, n):
         yield c_cfv(q, u, v, val)
 
 
+# ------------------------------------------------------------------------------------------ setters, powers, sequence protocol
+def _pynum_enc(spec):
+    """a Python value given to a setter: ints and floats take different branches there"""
+    k = spec[0]
+    if k == "i":
+        return "i:%d/1" % spec[1]
+    if k == "f":
+        return "f:" + qstr(exact(_obj(spec)))
+    if k in ("inf", "-inf", "none"):
+        return k
+    return "bad"
+
+
+def _key_obj(key):
+    return None if key == "none" else key
+
+
+def _key_enc(key):
+    return key if isinstance(key, int) else None
+
+
+def _fracarg_enc(fr):
+    if fr["t"] == "frac":
+        return dict(t="frac", x=qstr(Q(fr["x"][0], fr["x"][1])))
+    if fr["t"] == "pair":
+        return dict(t="pair", a=_enc(fr["a"]), b=_enc(fr["b"]))
+    return dict(t=fr["t"])
+
+
+def _fracarg_obj(fr):
+    return {"frac": lambda: _fr(fr["x"]), "pair": lambda: (_obj(fr["a"]), _obj(fr["b"])), "badlen": lambda: (1, 2, 3),
+            "bad": lambda: [1, 2]}[fr["t"]]()
+
+
+def _number_enc(spec):
+    return qstr(exact(_obj(spec))) if _fin(spec) else "bad"
+
+
+def _mut_enc(m):
+    t = m["t"]
+    if t in ("setnum", "setden"):
+        return dict(t=t, v=_pynum_enc(m["v"]))
+    if t == "setitem":
+        return dict(t=t, key=_key_enc(m["key"]), v=_pynum_enc(m["v"]))
+    if t == "reduce":
+        return dict(t=t)
+    if t == "setnumber":
+        return dict(t=t, n=_number_enc(m["n"]))
+    if t == "setfraction":
+        return dict(t=t, fr=_fracarg_enc(m["fr"]))
+    raise ValueError(t)
+
+
+def _pow_enc(e):
+    k = e[0]
+    if k in ("i", "f"):
+        return "%s:%d" % (k, e[1])
+    if k in ("inf", "-inf", "frac"):
+        return k
+    return "bad"
+
+
+def _pow_obj(e):
+    k = e[0]
+    if k == "i":
+        return e[1]
+    if k == "f":
+        return float(e[1])
+    if k == "frac":
+        return _fr([1, 2])
+    return _obj(e)
+
+
+def c_frac_pow(x, e):
+    return dict(op="frac_pow", x=qstr(Q(x[0], x[1])), e=_pow_enc(e), _t=dict(x=x, e=e))
+
+
+def c_frac_set(x, m):
+    return dict(op="frac_set", x=qstr(Q(x[0], x[1])), m=_mut_enc(m), _t=dict(x=x, m=m))
+
+
+def c_frac_seq(f, x, key=None):
+    c = dict(op="frac_seq", f=f, x=qstr(Q(x[0], x[1])), _t=dict(x=x))
+    if f == "getitem":
+        c["key"] = _key_enc(key)
+        c["_t"]["key"] = key
+    return c
+
+
+SET_INTS = [1, 2, 3, 4, 5, 7, 8, 16, -1, -3, 10, 64, 100]
+SET_FLOATS = [0.5, 0.25, 1.5, 2.0, -0.5, 0.1, 2.5, 0.125, 3.0, 1e-3, 12.5]
+
+
+def g_setval(rng, zero=0.06, odd=0.12):
+    """the value handed to a setter: ints, short-decimal floats, and the special ones"""
+    r = rng.random()
+    if r < zero:
+        return rng.choice([_I(0), _F(0.0)])
+    if r < zero + odd:
+        return rng.choice([["inf"], ["-inf"], ["none"], ["str"]])
+    if r < 0.7:
+        return _I(rng.choice(SET_INTS) if rng.random() < 0.7 else rng.randint(-999, 999))
+    return _F(rng.choice(SET_FLOATS) if rng.random() < 0.7 else float("%de-%d" % (rng.randrange(1, 10 ** 4), rng.randint(1, 4))))
+
+
+def g_key(rng):
+    return rng.choice([0, 1, 0, 1, -1, -2, 2, -3, 5, "none"])
+
+
+def g_fracarg(rng, bad=0.1):
+    r = rng.random()
+    if r < bad:
+        return rng.choice([dict(t="badlen"), dict(t="bad"), dict(t="pair", a=_I(1), b=_I(0)), dict(t="pair", a=["inf"], b=_I(2)),
+                           dict(t="pair", a=_I(1), b=["str"])])
+    if r < 0.5:
+        return dict(t="frac", x=g_pair(rng))
+    d = rng.randint(1, 64)
+    a = _I(rng.randint(-3 * d, 3 * d)) if rng.random() < 0.8 else _F(rng.choice(SET_FLOATS))
+    return dict(t="pair", a=a, b=_I(d * rng.choice((1, 1, 1, -1))))
+
+
+def g_frac_mut(rng):
+    r = rng.random()
+    if r < 0.35:
+        return dict(t="setnum", v=g_setval(rng))
+    if r < 0.65:
+        return dict(t="setden", v=g_setval(rng))
+    if r < 0.92:
+        return dict(t="setitem", key=g_key(rng), v=g_setval(rng))
+    return dict(t="reduce")
+
+
+def g_pow(rng):
+    r = rng.random()
+    if r < 0.55:
+        return ["i", rng.randint(-6, 6)]
+    if r < 0.85:
+        return ["f", rng.randint(-5, 5)]
+    return rng.choice([["inf"], ["-inf"], ["str"], ["none"], ["frac"]])
+
+
+def g_small_pair(rng):
+    d = rng.randint(1, 30)
+    n = rng.randint(-30, 30)
+    if rng.random() < 0.1:
+        n = rng.choice([0, d, -d])
+    return [n, d]
+
+
+def s_frac_more(rng, n):
+    """`**`, the in-place setters and the sequence protocol of one Fraction"""
+    for _ in range(n):
+        r = rng.random()
+        if r < 0.3:
+            yield c_frac_pow(g_small_pair(rng), g_pow(rng))
+        elif r < 0.8:
+            yield c_frac_set(g_pair(rng), g_frac_mut(rng))
+        else:
+            f = rng.choice(["len", "iter", "getitem", "getitem"])
+            yield c_frac_seq(f, g_pair(rng), g_key(rng))
+
+
+def s_fv_more(rng, n):
+    """the localized texts, CreateFromString without the locale, CreateFromFloat's other exits"""
+    for _ in range(n):
+        r = rng.random()
+        if r < 0.3:
+            v = g_fv_printable(rng) if rng.random() < 0.7 else g_fv(rng, ["int", "short", "dyadic", "zero"])
+            if rng.random() < 0.3:
+                v["x"] = [0, 1]
+            yield c_fv1(rng.choice(["fv_lstr", "fv_lfrac", "fv_lparse"]), v)
+        elif r < 0.6:
+            v = g_fv_printable(rng)
+            text = rng.choice(["%s", "%s", " %s ", "%s\n"]) % _py_text(v)
+            if rng.random() < 0.2:
+                text = rng.choice(["", "1/0", "5 3/4x", "1,5 1/2", "2.5", "3/4", "-0.5 -1/4", "1e5", "5  3  /  4", "1.25.5/4", "7,5"])
+            yield c_parse(text, cl=False)
+        else:
+            q = rng.random()
+            if q < 0.1:
+                yield c_cff(["none"])
+            elif q < 0.3:  # two successive convergents print alike (the loop's second exit), values next to an integer
+                x = rng.choice([0.051798867, 0.055685333, 0.99999999, 1.9999999, 5.999999, 1.0000001, 3.00000001, 0.00999999, 12.000001,
+                                0.33333333, 0.66666667, 0.14285714, 0.11111111, 2.7182818, 3.1415927, 1.4142136, 0.70710678])
+                yield c_cff(_F(x * rng.choice((1, -1))))
+            elif q < 0.7:  # quotients of small integers, cut to 8 significant digits (longer inputs: see the finding `cff-long-float`)
+                a, b = rng.randint(1, 400), rng.randint(2, 400)
+                yield c_cff(_F(rng.choice((1, -1)) * float("%.8g" % (rng.randint(0, 30) + a / b))))
+            else:
+                yield c_cff(_F(rng.choice((1, -1)) * (rng.randint(0, 9) + 1 - 10.0 ** -rng.randint(2, 7))))
+
+
+def _py_text(v):
+    """str() of a FractionValue spec, by Python's own '%g' (used only to build input texts)"""
+    n = "%g" % _obj(v["n"])
+    x = Q(v["x"][0], v["x"][1])
+    return n if x == 0 else "%s %d/%d" % (n, x.numerator, x.denominator)
+
+
+# ------------------------------------------------------------------------------------------ programs over a pool of objects
+HIST_NUMBERS = [0, 1, 2, 3, 4, 5, 7, 10, 12, -3, -1, 100, 2.5, 0.5, 0.25, 1.5, -2.5, 0.1, 7.0, 3.0, 0.0, 100.25, 273.15, 32.0]
+
+
+def g_hist_number(rng):
+    x = rng.choice(HIST_NUMBERS) if rng.random() < 0.8 else rng.randint(-999, 999)
+    return _I(x) if isinstance(x, int) else _F(x)
+
+
+class _Tracker:
+    """what the generator expects the pool to look like (only to aim later statements well; a wrong guess makes a
+    reference hit another member, which is still a program both sides run)"""
+
+    def __init__(self):
+        self.kinds = []
+        self.nz = []          # fractions: "nz" / "zero" / "unk"
+
+    def of(self, kind):
+        return [i for i, k in enumerate(self.kinds) if k == kind]
+
+    def add(self, kind, nz="unk"):
+        self.kinds.append(kind)
+        self.nz.append(nz)
+
+
+def _g_ctor(ctx, rng, tr, dbname, focus):
+    """one constructing statement; returns (ctor spec, predicted kind or None, nz)"""
+    fr, fv, fs = tr.of("frac"), tr.of("fv"), tr.of("fs")
+    forms = ["fv_n", "fv_n", "fv_0", "fv_pair", "fv_frac", "fv_kw", "cff", "cff_int", "parse", "frac_new", "fs_num", "fs_fv"]
+    if focus:
+        forms = ["fv_n", "fv_n", "fv_0", "cff_int", "fs_num", "fv_kw", "fv_pair"]
+    else:
+        if fv:
+            forms += ["fv_copy", "fv_copy", "fv_convert"]
+        if fr:
+            forms += ["frac_un", "frac_bin", "frac_bin", "frac_pow"]
+        if fs:
+            forms += ["fs_get", "fs_get"]
+        if rng.random() < 0.08:
+            forms = ["bad"]
+    f = rng.choice(forms)
+    qt, cat, units = _hist_quantity(ctx, rng, dbname)
+    if f == "fv_n":
+        return dict(t="fv_new", form="n", number=g_hist_number(rng), fr=dict(t="default")), "fv", None
+    if f == "fv_0":
+        return dict(t="fv_new", form="0", number=_F(0.0), fr=dict(t="default")), "fv", None
+    if f == "fv_kw":
+        return dict(t="fv_new", form="kw", number=g_hist_number(rng), fr=dict(t="default")), "fv", None
+    if f == "fv_pair":
+        d = rng.choice([2, 4, 8, 16, 3, 5, 64, 10])
+        return dict(t="fv_new", form="nf", number=g_hist_number(rng), fr=dict(t="pair", a=_I(rng.randint(-2 * d, 2 * d)), b=_I(d))), "fv", None
+    if f == "fv_frac":
+        return dict(t="fv_new", form=rng.choice(["nf", "kwf"]), number=g_hist_number(rng), fr=dict(t="frac", x=g_small_pair(rng))), "fv", None
+    if f == "cff":
+        a, b = rng.randint(1, 63), rng.choice([2, 4, 8, 16, 5, 10, 32, 64])
+        return dict(t="cff", x=_F(rng.choice((1, -1)) * (rng.randint(0, 20) + a / b))), "fv", None
+    if f == "cff_int":
+        return dict(t="cff", x=rng.choice([_F(float(rng.randint(-50, 50))), _I(rng.randint(-50, 50))])), "fv", None
+    if f == "parse":
+        v = dict(n=_I(rng.randint(-99, 99)) if rng.random() < 0.6 else _F(rng.choice([2.5, 0.25, 12.5, 100.75])), x=g_small_pair(rng))
+        return dict(t="fv_parse", text=_py_text(v), cl=rng.random() < 0.7), "fv", None
+    if f == "frac_new":
+        a = _I(rng.randint(-40, 40)) if rng.random() < 0.7 else _F(rng.choice(SET_FLOATS))
+        b = rng.choice([None, _I(rng.randint(1, 40)), _I(-rng.randint(1, 9)), _F(0.5), _F(2.0)])
+        return dict(t="frac_new", a=a, b=b), "frac", ("zero" if _obj(a) == 0 else "nz")
+    if f == "fs_num":
+        return dict(t="fs_new", cat=cat, unit=rng.choice(units), v=dict(t="num", v=g_hist_number(rng))), "fs", None
+    if f == "fs_fv":
+        return dict(t="fs_new", cat=cat, unit=rng.choice(units), v=dict(t="fv", v=dict(n=g_hist_number(rng), x=g_small_pair(rng)))), "fs", None
+    if f == "fv_copy":
+        return dict(t="fv_copy", k=rng.choice(fv)), "fv", None
+    if f == "fv_convert":
+        u, w = rng.choice(units), rng.choice(units)
+        q = dict(t="qtype", s=qt) if rng.random() < 0.4 else dict(t="quantity", cat=cat, unit=rng.choice(units))
+        return dict(t="fv_convert", k=rng.choice(fv), q=q, to=w, **{"from": u}), "fv", None
+    if f == "frac_un":
+        k = rng.choice(fr)
+        g = rng.choice(["neg", "abs", "copy", "copy", "inv"])
+        if g == "inv" and tr.nz[k] == "unk":
+            g = "copy"
+        ok = not (g == "inv" and tr.nz[k] == "zero")
+        return dict(t="frac_un", f=g, k=k), ("frac" if ok else None), (tr.nz[k] if ok else None)
+    if f == "frac_bin":
+        k = rng.choice(fr)
+        g = rng.choice(OPS_BIN)
+        if rng.random() < 0.5 and len(fr) > 1:
+            j = rng.choice(fr)
+            o, onz = dict(t="ref", k=j), tr.nz[j]
+        else:
+            if rng.random() < 0.5:
+                p = g_small_pair(rng)
+                o, onz = dict(t="frac", x=p), ("zero" if p[0] == 0 else "nz")
+            else:
+                x = rng.choice([1, 2, 3, -2, 5, 0.5, 0.25, 1.5, 10, 0.1])
+                o, onz = dict(t="num", v=(_I(x) if isinstance(x, int) else _F(x))), "nz"
+            if rng.random() < 0.04:
+                o, onz = dict(t="seq", kind=rng.choice(SEQ_KINDS)), "bad"
+        if g in ("div", "mod") and onz == "unk":
+            g = "mul"
+        if g == "rdiv" and tr.nz[k] == "unk":
+            g = "rmul"
+        ok = onz != "bad" and not (g in ("div", "mod") and onz == "zero") and not (g == "rdiv" and tr.nz[k] == "zero")
+        nz = "unk"
+        if ok and g in ("mul", "rmul", "div", "rdiv"):
+            a, b = tr.nz[k], onz
+            nz = "zero" if "zero" in (a, b) and g in ("mul", "rmul") else ("nz" if a == b == "nz" else "unk")
+            if g == "div" and a == "zero":
+                nz = "zero"
+            if g == "rdiv" and b == "zero":
+                nz = "zero"
+        return dict(t="frac_bin", f=g, k=k, o=o), ("frac" if ok else None), nz
+    if f == "frac_pow":
+        k = rng.choice(fr)
+        e = g_pow(rng)
+        if e[0] in ("i", "f") and abs(e[1]) > 4:
+            e = [e[0], e[1] % 4]
+        if e[0] in ("i", "f") and e[1] < 0 and tr.nz[k] != "nz":
+            e = [e[0], -e[1]]
+        ok = e[0] in ("i", "f")
+        return dict(t="frac_pow", k=k, e=e), ("frac" if ok else None), (tr.nz[k] if ok and e[1] != 0 else "nz")
+    if f == "fs_get":
+        k = rng.choice(fs)
+        return dict(t="fs_get", k=k, unit=rng.choice(tr.fs_units.get(k) or units)), "fv", None
+    # statements that fail (nothing is built)
+    bad = [dict(t="fv_new", form="n", number=["str"], fr=dict(t="default")), dict(t="fv_new", form="nf", number=_I(1), fr=dict(t="badlen")),
+           dict(t="fv_new", form="nf", number=_I(1), fr=dict(t="bad")), dict(t="fv_new", form="nf", number=_I(1), fr=dict(t="pair", a=_I(1), b=_I(0))),
+           dict(t="cff", x=["str"]), dict(t="cff", x=["none"]), dict(t="fv_parse", text="1/0", cl=True), dict(t="fv_parse", text="5 3/4x", cl=False),
+           dict(t="frac_new", a=["inf"], b=None), dict(t="frac_new", a=_I(1), b=_I(0)), dict(t="fv_copy", k=len(tr.kinds) + 3),
+           dict(t="frac_un", f="neg", k=len(tr.kinds))]
+    return rng.choice(bad), None, None
+
+
+def _hist_quantity(ctx, rng, dbname):
+    if dbname == "lim":
+        qt = rng.choice(["length", "length", "temperature"])
+        return qt, qt, LIM_UNITS[qt]
+    qt = rng.choice(ctx.hist_types)
+    return qt, rng.choice(ctx.cats[qt]), ctx.units[qt]
+
+
+def _g_mut(rng, kind):
+    r = rng.random()
+    if kind == "frac":
+        if r < 0.04:
+            return rng.choice([dict(t="setnumber", n=_I(3), via="method"), dict(t="setfraction", fr=dict(t="pair", a=_I(1), b=_I(2)), via="method")])
+        return g_frac_mut(rng)
+    if r < 0.55:
+        return g_frac_mut(rng)
+    if r < 0.8:
+        n = g_hist_number(rng) if rng.random() < 0.9 else rng.choice([["none"], ["str"]])
+        return dict(t="setnumber", n=n, via=rng.choice(["method", "prop"]))
+    return dict(t="setfraction", fr=g_fracarg(rng), via=rng.choice(["method", "prop"]))
+
+
+def g_program(ctx, rng):
+    dbname = "lim" if (rng.random() < 0.7 or not ctx.hist_types) else "posc"
+    tr = _Tracker()
+    tr.fs_units = {}
+    ops = []
+    n_first = rng.randint(2, 4)
+    total = rng.randint(5, 12)
+    while len(ops) < total:
+        first = len(ops) < n_first
+        if not first and tr.kinds and rng.random() < 0.5:
+            i = rng.randrange(len(tr.kinds)) if rng.random() < 0.97 else len(tr.kinds) + rng.randint(0, 2)
+            kind = tr.kinds[i] if i < len(tr.kinds) else "fv"
+            m = _g_mut(rng, kind)
+            ops.append(dict(k="upd", i=i, m=m))
+            if kind == "frac" and i < len(tr.kinds):
+                tr.nz[i] = "unk"
+                if m["t"] == "setnum" and m["v"][0] == "i":
+                    tr.nz[i] = "zero" if m["v"][1] == 0 else "nz"
+            continue
+        c, kind, nz = _g_ctor(ctx, rng, tr, dbname, focus=first and rng.random() < 0.8)
+        ops.append(dict(k="new", c=c))
+        if kind is not None:
+            if kind == "fs":
+                tr.fs_units[len(tr.kinds)] = LIM_UNITS[c["cat"]] if dbname == "lim" else ctx.units[ctx.qtype_of_cat[c["cat"]]]
+            tr.add(kind, nz or "unk")
+    return dbname, ops
+
+
+def _ctor_enc(c):
+    t = c["t"]
+    if t == "frac_new":
+        return dict(t=t, a=_enc(c["a"]), b=(None if c["b"] is None else _enc(c["b"])))
+    if t == "frac_un":
+        return dict(t=t, f=c["f"], k=c["k"])
+    if t == "frac_bin":
+        o = c["o"]
+        return dict(t=t, f=c["f"], k=c["k"], o=(dict(t="ref", k=o["k"]) if o["t"] == "ref" else _operand_enc(o)))
+    if t == "frac_pow":
+        return dict(t=t, k=c["k"], e=_pow_enc(c["e"]))
+    if t == "fv_new":
+        return dict(t=t, number=_number_enc(c["number"]), fr=_fracarg_enc(c["fr"]))
+    if t == "cff":
+        return dict(t=t, d=c_cff(c["x"])["d"])
+    if t == "fv_parse":
+        return dict(t=t, text=c["text"], cl=bool(c["cl"]))
+    if t == "fv_copy":
+        return dict(t=t, k=c["k"])
+    if t == "fs_new":
+        v = c["v"]
+        ve = dict(t="num", q=qstr(exact(_obj(v["v"])))) if v["t"] == "num" else dict(t="fv", **_fv_enc(v["v"]))
+        return dict(t=t, cat=str(sym(c["cat"])), unit=str(sym(c["unit"])), v=ve)
+    if t == "fs_get":
+        return dict(t=t, k=c["k"], unit=str(sym(c["unit"])))
+    if t == "fv_convert":
+        q = c["q"]
+        qe = dict(t="qtype", s=str(sym(q["s"]))) if q["t"] == "qtype" else dict(t="quantity", cat=str(sym(q["cat"])), unit=str(sym(q["unit"])))
+        return {"t": t, "k": c["k"], "q": qe, "from": str(sym(c["from"])), "to": str(sym(c["to"]))}
+    raise ValueError(t)
+
+
+def c_hist(dbname, ops):
+    enc = [dict(k="new", c=_ctor_enc(o["c"])) if o["k"] == "new" else dict(k="upd", i=o["i"], m=_mut_enc(o["m"])) for o in ops]
+    return dict(op="hist", db=dbname, ops=enc, _t=dict(db=dbname, ops=ops))
+
+
+def s_hist(ctx, rng, n):
+    for _ in range(n):
+        dbname, ops = g_program(ctx, rng)
+        yield c_hist(dbname, ops)
+
+
+# ---- a program as Python text (evidence, replays)
+def _lit(spec):
+    return repr(_obj(spec)) if spec[0] != "str" else "'x'"
+
+
+def _fracarg_text(fr):
+    if fr["t"] == "frac":
+        return "Fraction(%d, %d)" % tuple(fr["x"])
+    if fr["t"] == "pair":
+        return "(%s, %s)" % (_lit(fr["a"]), _lit(fr["b"]))
+    return "(1, 2, 3)" if fr["t"] == "badlen" else "[1, 2]"
+
+
+def _ctor_text(c):
+    t = c["t"]
+    if t == "frac_new":
+        return "Fraction(%s)" % _lit(c["a"]) if c["b"] is None else "Fraction(%s, %s)" % (_lit(c["a"]), _lit(c["b"]))
+    if t == "frac_un":
+        return {"neg": "-p%d", "abs": "abs(p%d)", "inv": "p%d.inv()", "copy": "p%d.copy()"}[c["f"]] % c["k"]
+    if t == "frac_bin":
+        o = c["o"]
+        ot = "p%d" % o["k"] if o["t"] == "ref" else ("Fraction(%d, %d)" % tuple(o["x"]) if o["t"] == "frac" else
+                                                     (repr(_seq_obj(o["kind"])) if o["t"] == "seq" else _lit(o["v"])))
+        sym_ = {"add": "+", "radd": "+", "sub": "-", "rsub": "-", "mul": "*", "rmul": "*", "div": "/", "rdiv": "/", "mod": "%"}[c["f"]]
+        return "%s %s p%d" % (ot, sym_, c["k"]) if c["f"].startswith("r") else "p%d %s %s" % (c["k"], sym_, ot)
+    if t == "frac_pow":
+        e = c["e"]
+        return "p%d ** %s" % (c["k"], "Fraction(1, 2)" if e[0] == "frac" else ("'x'" if e[0] == "str" else repr(_pow_obj(e))))
+    if t == "fv_new":
+        form = c["form"]
+        if form == "0":
+            return "FractionValue()"
+        if form == "n":
+            return "FractionValue(%s)" % _lit(c["number"])
+        if form == "kw":
+            return "FractionValue(number=%s)" % _lit(c["number"])
+        if form == "kwf":
+            return "FractionValue(number=%s, fraction=%s)" % (_lit(c["number"]), _fracarg_text(c["fr"]))
+        return "FractionValue(%s, %s)" % (_lit(c["number"]), _fracarg_text(c["fr"]))
+    if t == "cff":
+        return "FractionValue.CreateFromFloat(%s)" % _lit(c["x"])
+    if t == "fv_parse":
+        return "FractionValue.CreateFromString(%r%s)" % (c["text"], "" if c["cl"] else ", consider_locale=False")
+    if t == "fv_copy":
+        return "copy.copy(p%d)" % c["k"]
+    if t == "fs_new":
+        v = c["v"]
+        vt = _lit(v["v"]) if v["t"] == "num" else _show_val(v["v"])
+        return "FractionScalar(%r, value=%s, unit=%r)" % (c["cat"], vt, c["unit"])
+    if t == "fs_get":
+        return "p%d.GetValue(%r)" % (c["k"], c["unit"])
+    if t == "fv_convert":
+        q = c["q"]
+        qt = repr(q["s"]) if q["t"] == "qtype" else "ObtainQuantity(%r, %r)" % (q["unit"], q["cat"])
+        return "FractionScalar.ConvertFractionValue(p%d, %s, %r, %r)" % (c["k"], qt, c["from"], c["to"])
+    return str(c)
+
+
+def _mut_text(i, m, kind="?"):
+    path = {"frac": "p%d", "fv": "p%d.fraction", "fs": "p%d.GetValue().fraction"}.get(kind, "fraction_of(p%d)") % i
+    own = {"fs": "p%d.GetValue()"}.get(kind, "p%d") % i
+    t = m["t"]
+    if t == "setnum":
+        return "%s.numerator = %s" % (path, _lit(m["v"]))
+    if t == "setden":
+        return "%s.denominator = %s" % (path, _lit(m["v"]))
+    if t == "setitem":
+        return "%s[%s] = %s" % (path, "None" if m["key"] == "none" else m["key"], _lit(m["v"]))
+    if t == "reduce":
+        return "%s.reduce()" % path
+    if t == "setnumber":
+        return "%s.number = %s" % (own, _lit(m["n"])) if m.get("via") == "prop" else "%s.SetNumber(%s)" % (own, _lit(m["n"]))
+    return "%s.fraction = %s" % (own, _fracarg_text(m["fr"])) if m.get("via") == "prop" else "%s.SetFraction(%s)" % (own, _fracarg_text(m["fr"]))
+
+
+def _program_text(ops, kinds=None):
+    """the statements; `pK` is the K-th object built so far (a failing construction builds none)"""
+    out = []
+    for o in ops:
+        if o["k"] == "new":
+            out.append("new: " + _ctor_text(o["c"]))
+        else:
+            out.append(_mut_text(o["i"], o["m"], (kinds or {}).get(o["i"], "?")))
+    return out
+
+
+# ---- running a program on the real code
+class _WrongKind(RuntimeError):
+    pass
+
+
+def _member(pool, k, cls):
+    if not (0 <= k < len(pool)) or not isinstance(pool[k], cls):
+        raise _WrongKind("statement refers to an object that is not there")
+    return pool[k]
+
+
+def _build(c, pool):
+    """run one constructing statement on the real code; the new object or None"""
+    from barril.basic.fraction import Fraction, FractionValue
+    from barril.units import FractionScalar, ObtainQuantity
+
+    t = c["t"]
+    if t == "frac_new":
+        return Fraction(_obj(c["a"])) if c["b"] is None else Fraction(_obj(c["a"]), _obj(c["b"]))
+    if t == "frac_un":
+        x = _member(pool, c["k"], Fraction)
+        return {"neg": lambda: -x, "abs": lambda: abs(x), "inv": x.inv, "copy": x.copy}[c["f"]]()
+    if t == "frac_bin":
+        x = _member(pool, c["k"], Fraction)
+        o = c["o"]
+        y = _member(pool, o["k"], Fraction) if o["t"] == "ref" else _operand_obj(o)
+        r = {"add": lambda: x + y, "radd": lambda: y + x, "sub": lambda: x - y, "rsub": lambda: y - x, "mul": lambda: x * y,
+             "rmul": lambda: y * x, "div": lambda: x / y, "rdiv": lambda: y / x, "mod": lambda: x % y}[c["f"]]()
+        if not isinstance(r, Fraction):
+            raise LookupError("result is %r" % type(r).__name__)
+        return r
+    if t == "frac_pow":
+        return _member(pool, c["k"], Fraction) ** _pow_obj(c["e"])
+    if t == "fv_new":
+        form = c["form"]
+        if form == "0":
+            return FractionValue()
+        if form == "n":
+            return FractionValue(_obj(c["number"]))
+        if form == "kw":
+            return FractionValue(number=_obj(c["number"]))
+        if form == "kwf":
+            return FractionValue(number=_obj(c["number"]), fraction=_fracarg_obj(c["fr"]))
+        return FractionValue(_obj(c["number"]), _fracarg_obj(c["fr"]))
+    if t == "cff":
+        return FractionValue.CreateFromFloat(_obj(c["x"]))
+    if t == "fv_parse":
+        return FractionValue.CreateFromString(c["text"]) if c["cl"] else FractionValue.CreateFromString(c["text"], consider_locale=False)
+    if t == "fv_copy":
+        return copy.copy(_member(pool, c["k"], FractionValue))
+    if t == "fs_new":
+        v = c["v"]
+        return FractionScalar(c["cat"], value=(_obj(v["v"]) if v["t"] == "num" else _fv(v["v"])), unit=c["unit"])
+    if t == "fs_get":
+        return _member(pool, c["k"], FractionScalar).GetValue(c["unit"])
+    if t == "fv_convert":
+        q = c["q"]
+        arg = q["s"] if q["t"] == "qtype" else ObtainQuantity(q["unit"], q["cat"])
+        return FractionScalar.ConvertFractionValue(_member(pool, c["k"], FractionValue), arg, c["from"], c["to"])
+    raise ValueError(t)
+
+
+def _mutate(pool, i, m):
+    """run one in-place statement on the real code"""
+    from barril.basic.fraction import Fraction, FractionValue
+
+    if not (0 <= i < len(pool)):
+        raise _WrongKind("statement refers to an object that is not there")
+    o = pool[i]
+    t = m["t"]
+    if t in ("setnumber", "setfraction"):
+        own = o if isinstance(o, (Fraction, FractionValue)) else o.GetValue()
+        arg = _obj(m["n"]) if t == "setnumber" else _fracarg_obj(m["fr"])
+        if m.get("via") == "prop" and not isinstance(own, Fraction):
+            if t == "setnumber":
+                own.number = arg
+            else:
+                own.fraction = arg
+        elif t == "setnumber":
+            own.SetNumber(arg)
+        else:
+            own.SetFraction(arg)
+        return
+    f = o if isinstance(o, Fraction) else (o.fraction if isinstance(o, FractionValue) else o.GetValue().fraction)
+    if t == "setnum":
+        f.numerator = _obj(m["v"])
+    elif t == "setden":
+        f.denominator = _obj(m["v"])
+    elif t == "setitem":
+        f[_key_obj(m["key"])] = _obj(m["v"])
+    elif t == "reduce":
+        f.reduce()
+    else:
+        raise ValueError(t)
+
+
+def _kind_of(o):
+    from barril.basic.fraction import Fraction, FractionValue
+
+    return "frac" if isinstance(o, Fraction) else ("fv" if isinstance(o, FractionValue) else "fs")
+
+
+def _snap(o):
+    """everything an object shows: float(), str(), parts (for a FractionScalar of its value, plus category and unit)"""
+    k = _kind_of(o)
+    if k == "frac":
+        return dict(k=k, x=qstr(o.x), s=str(o), f=float(o).hex(), parts=[o.numerator, o.denominator], seq=[len(o), list(o), o[0], o[1]])
+    v = o if k == "fv" else o.GetValue()
+    d = dict(k=k, n=qstr(exact(v.number)), x=qstr(v.fraction.x), s=str(v), f=float(v).hex(),
+             parts=[v.GetNumber(), v.GetFraction().numerator, v.GetFraction().denominator])
+    if v.number == 0 and math.copysign(1.0, v.number) < 0:
+        d["negzero"] = True      # the float -0.0 prints as '-0'; the rational model has one zero
+    if k == "fs":
+        d["cat"] = str(sym(o.GetQuantity().GetCategory()))
+        d["unit"] = str(sym(o.GetUnit()))
+    return d
+
+
+def _run_program(ops, on_step=None):
+    """the program on the real code: after every statement what it did and what every object shows"""
+    pool, trace = [], []
+    for idx, o in enumerate(ops):
+        try:
+            if o["k"] == "new":
+                r = _build(o["c"], pool)
+                if r is not None:
+                    pool.append(r)
+            else:
+                _mutate(pool, o["i"], o["m"])
+            res = "ok"
+        except _WrongKind:
+            res = "runtime"
+        except Exception as e:
+            res = err_kind(e)
+        trace.append(dict(r=res, pool=[_snap(p) for p in pool]))
+        if on_step is not None:
+            on_step(idx, o, res, pool)
+    return trace
+
+
 SIZES = {
-    "quick": dict(frac_new=8000, frac_ops=16000, fv=8000, str=12000, parse=16000, cff=12000, per_type=25, nvals=1, misc=8000, cfv=8000),
+    "quick": dict(frac_new=8000, frac_ops=16000, fv=8000, str=12000, parse=16000, cff=12000, per_type=25, nvals=1, misc=8000, cfv=8000,
+                  frac_more=6000, fv_more=4000, hist=2500),
     "thorough": dict(frac_new=30000, frac_ops=60000, fv=30000, str=50000, parse=60000, cff=60000, per_type=None, nvals=2, misc=25000,
-                     cfv=50000),
+                     cfv=50000, frac_more=30000, fv_more=20000, hist=20000),
 }
 
 
@@ -652,6 +1340,7 @@ def setup(ctx):
                     if s not in db.unit_to_unit_info:
                         leg.append((qt, s))
     ctx.legacy = sorted(set(leg))
+    ctx.hist_types = [qt for qt in ("length", "temperature", "pressure", "volume", "time", "mass") if cats.get(qt) and qt in ctx.units]
 
 
 def _streams(ctx, salt, z):
@@ -664,6 +1353,9 @@ def _streams(ctx, salt, z):
     yield from s_fs_pairs(ctx, ctx.fresh_rng("C18pairs" + salt), z["per_type"], z["nvals"])
     yield from s_fs_misc(ctx, ctx.fresh_rng("C18misc" + salt), z["misc"])
     yield from s_cfv(ctx, ctx.fresh_rng("C18cfv" + salt), z["cfv"])
+    yield from s_frac_more(ctx.fresh_rng("C18fracmore" + salt), z["frac_more"])
+    yield from s_fv_more(ctx.fresh_rng("C18fvmore" + salt), z["fv_more"])
+    yield from s_hist(ctx, ctx.fresh_rng("C18hist" + salt), z["hist"])
 
 
 def cases(ctx):
@@ -685,6 +1377,10 @@ def show(c):
         out["f"] = c["f"]
     if c["op"] in ("fv_parse", "fv_match"):
         out["text"] = c["text"]
+    if c["op"] == "hist":
+        out["db"] = t["db"]
+        out["program"] = _program_text(t["ops"])
+        return out
     for k, v in t.items():
         out[k] = _show_val(v)
     return out
@@ -779,6 +1475,8 @@ def _run(c, ctx):
     if op == "fv_str":
         return dict(ok=str(_fv(t["v"])))
     if op == "fv_parse":
+        if c.get("cl") is False:
+            return dict(ok=_fv_out(FractionValue.CreateFromString(c["text"], consider_locale=False)))
         return dict(ok=_fv_out(FractionValue.CreateFromString(c["text"])))
     if op == "fv_match":
         FractionValue.MatchFractionPart(c["text"])
@@ -788,7 +1486,7 @@ def _run(c, ctx):
     if op == "cff":
         r = FractionValue.CreateFromFloat(_obj(t["x"]))
         if r is None:
-            return dict(err="other", detail="None")
+            return dict(ok=None)
         return dict(ok=_fv_out(r))
     if op == "fs_convert":
         s = _mk_fs(ctx, dict(cat=t["cat"], unit=t["from"], v=t["v"]))
@@ -812,6 +1510,31 @@ def _run(c, ctx):
         if not isinstance(r, FractionValue):
             return dict(err="other", detail="result is %r" % type(r).__name__)
         return dict(ok=_fv_out(r))
+    if op == "frac_pow":
+        r = _fr(t["x"]) ** _pow_obj(t["e"])
+        if not isinstance(r, Fraction):
+            return dict(err="other", detail="result is %r" % type(r).__name__)
+        return dict(ok=qstr(r.x))
+    if op == "frac_set":
+        x = _fr(t["x"])
+        _mutate([x], 0, t["m"])
+        return dict(ok=qstr(x.x))
+    if op == "frac_seq":
+        x = _fr(t["x"])
+        if c["f"] == "len":
+            return dict(ok=len(x))
+        if c["f"] == "iter":
+            a, b = x            # unpacking iterates
+            return dict(ok=[str(i) for i in x] if [a, b] == list(x) else "unpacking and list() differ")
+        return dict(ok=str(x[_key_obj(t["key"])]))
+    if op == "fv_lstr":
+        return dict(ok=_fv(t["v"]).GetLocalizedString())
+    if op == "fv_lfrac":
+        return dict(ok=_fv(t["v"]).GetLocalizedFraction())
+    if op == "fv_lparse":
+        return dict(ok=_fv_out(FractionValue.CreateFromString(_fv(t["v"]).GetLocalizedString())))
+    if op == "hist":
+        return dict(ok=_run_program(t["ops"]))
     raise ValueError(op)
 
 
@@ -822,7 +1545,7 @@ def _db(c, ctx):
 def impl(c, ctx):
     from barril.units.unit_database import UnitDatabase
 
-    push = c["op"].startswith(("fs_", "db_", "cfv"))
+    push = c["op"].startswith(("fs_", "db_", "cfv", "hist"))
     if push:
         UnitDatabase.PushSingleton(_db(c, ctx))
     try:
@@ -835,6 +1558,16 @@ def impl(c, ctx):
     n = ctx.notes.setdefault("branches", {})
     key = c["op"] + ("." + c["f"] if "f" in c else "") + ("/" + out["err"] if "err" in out else "/ok")
     n[key] = n.get(key, 0) + 1
+    if c["op"] == "hist" and "ok" in out:
+        h = ctx.notes.setdefault("program statements", {})
+        for o, st in zip(c["_t"]["ops"], out["ok"]):
+            key = (o["c"]["t"] + ("." + o["c"]["form"] if "form" in o["c"] else "") if o["k"] == "new" else "in place:" + o["m"]["t"]) + "/" + st["r"]
+            h[key] = h.get(key, 0) + 1
+    elif c["op"] in ("frac_pow", "frac_set"):
+        h = ctx.notes.setdefault("branches", {})
+        key = c["op"] + ":" + (c["_t"]["e"][0] if c["op"] == "frac_pow" else c["_t"]["m"]["t"] + ":" + c["_t"]["m"].get("v", ["-"])[0]) + \
+            ("/" + out["err"] if "err" in out else "/ok")
+        h[key] = h.get(key, 0) + 1
     return out
 
 
@@ -928,11 +1661,17 @@ def _agree_inner(c, io, mo, ctx):
             _note(ctx, "fv_cmp:near tie")
             return None
         return "order differs: impl %s model %s" % (a, b)
-    if op == "fv_str":
+    if op in ("fv_str", "fv_lstr", "fv_lfrac"):
         return None if a == b else "str differs: impl %r model %r" % (a, b)
+    if op in ("frac_pow", "frac_set"):
+        return None if qparse(a) == qparse(b) else "result differs: impl %s model %s" % (a, b)
+    if op == "frac_seq":
+        return None if a == b else "len / iteration / indexing differ: impl %r model %r" % (a, b)
+    if op == "hist":
+        return _agree_hist(c, a, b, ctx)
     if op == "fv_match":
         return None
-    if op in ("fv_parse", "fv_strparse"):
+    if op in ("fv_parse", "fv_strparse", "fv_lparse"):
         ni, nm = qparse(a["n"]), qparse(b["n"])
         if ni != exact(float(nm)):
             return "number differs: impl %s model %s" % (float(ni), float(nm))
@@ -947,6 +1686,8 @@ def _agree_inner(c, io, mo, ctx):
         if a == b:
             _note(ctx, "cff:identical")
             return None
+        if a is None or b is None:
+            return "CreateFromFloat differs: impl %s model %s" % (a, b)
         vi = qparse(a["n"]) + qparse(a["x"])
         vm = qparse(b["n"]) + qparse(b["x"])
         x = _obj(t["x"])
@@ -1055,8 +1796,45 @@ def _printable(q):
 KNOWN_CLASSES = ("tiny-increment", "g-exponent", "repr-exponent")
 
 
+_FRESH = r"""
+import sys, json
+sys.path.insert(0, %r); sys.path.insert(0, %r)
+import common, engine
+common.load_barril()
+prop = engine.load_prop("C18")
+req = json.load(sys.stdin)
+ctx = engine.Ctx("quick", 0, {})
+prop.setup(ctx)
+print("RESULT " + json.dumps(prop._oracle_pushed(prop.c_hist(req["db"], req["ops"]), ctx)))
+"""
+
+
+def _fresh_oracle(c, f_here):
+    """a program is judged in a fresh interpreter, so that nothing an earlier program left behind in the library is part
+    of the failing input (a replay must fail when run on its own)"""
+    import json
+    import os
+    import subprocess
+    import sys
+
+    here = os.path.dirname(os.path.abspath(__file__))
+    try:
+        r = subprocess.run([sys.executable, "-c", _FRESH % (os.path.dirname(here), here)], input=json.dumps(dict(db=c["_t"]["db"], ops=c["_t"]["ops"])),
+                           capture_output=True, text=True, timeout=300, env=dict(os.environ))
+        line = [l for l in r.stdout.splitlines() if l.startswith("RESULT ")]
+        if r.returncode == 0 and line:
+            return json.loads(line[-1][len("RESULT "):])
+    except Exception:
+        pass
+    f_here = dict(f_here)
+    f_here["note"] = "could not be re-run in a fresh interpreter"
+    return f_here
+
+
 def oracle(c, ctx, report_known=False):
     f = _oracle_pushed(c, ctx)
+    if f and c["op"] == "hist":
+        f = _fresh_oracle(c, f)
     if f and not report_known and f.get("known_class") in KNOWN_CLASSES:
         return None
     return f
@@ -1065,7 +1843,7 @@ def oracle(c, ctx, report_known=False):
 def _oracle_pushed(c, ctx):
     from barril.units.unit_database import UnitDatabase
 
-    push = c["op"].startswith(("fs_", "db_", "cfv"))
+    push = c["op"].startswith(("fs_", "db_", "cfv", "hist"))
     if push:
         UnitDatabase.PushSingleton(_db(c, ctx))
     try:
@@ -1108,9 +1886,15 @@ def _oracle(c, ctx):
             want = {"neg": -x, "abs": abs(x), "inv": (1 / x if x else None), "copy": x, "float": x}[f]
             okk = _rel(float(got), float(want), float(want)) if f == "float" else got == want
             return None if okk else dict(clause="Fraction %s agrees with exact rational arithmetic" % f, x=str(x), got=str(got), want=str(want))
+        if op == "hist":
+            return _oracle_hist(c, ctx)
+        if op in ("frac_pow", "frac_set", "frac_seq"):
+            return _oracle_more(c, ctx)
         if op in ("frac_bin", "frac_cmp"):
             x = Q(t["x"][0], t["x"][1])
             o = t["o"]
+            if o["t"] == "seq":
+                return None
             if o["t"] == "frac":
                 y = Q(o["x"][0], o["x"][1])
             elif _in_fraction_domain(o["v"]):
@@ -1161,14 +1945,14 @@ def _oracle(c, ctx):
                     if bool(got) != _pyop(c["f"], want, wb):
                         return dict(clause="order of FractionValues is the order of their amounts", f=c["f"], a=_show_val(v), b=_show_val(b), got=bool(got))
             return None
-        if op in ("fv_str", "fv_strparse"):
+        if op in ("fv_str", "fv_strparse", "fv_lparse"):
             v = t["v"]
             n = exact(_obj(v["n"]))
             x = Q(v["x"][0], v["x"][1])
             inside = _printable(n) and abs(x.numerator) < 10 ** 6 and x.denominator < 10 ** 6
             fv = _fv(v)
             try:
-                back = FractionValue.CreateFromString(str(fv))
+                back = FractionValue.CreateFromString(fv.GetLocalizedString() if op == "fv_lparse" else str(fv))
             except Exception as e:
                 return dict(clause="format followed by parse gives the value back", fv=_show_val(v), text=str(fv), error=repr(e),
                             known_class=None if inside else "g-exponent")
@@ -1297,9 +2081,362 @@ def _oracle(c, ctx):
     return None
 
 
+# ------------------------------------------------------------------------------------------ programs: comparison and property
+def _stmt_text(ops, k):
+    try:
+        return _program_text(ops[k:k + 1])[0]
+    except Exception:
+        return str(ops[k])
+
+
+def _agree_hist(c, ti, tm, ctx):
+    """every statement's outcome and, after every statement, every object of the pool: kind, parts, str(), float(), and for a
+    Fraction what len / iteration / indexing show"""
+    ops = c["_t"]["ops"]
+    if len(ti) != len(tm) or len(ti) != len(ops):
+        return "traces have different lengths: impl %d model %d" % (len(ti), len(tm))
+    smax = Q(1)
+    approx = False           # a unit conversion has produced float-rounded numbers
+    for k, (si, sm) in enumerate(zip(ti, tm)):
+        where = "after statement %d `%s`" % (k, _stmt_text(ops, k))
+        if si["r"] != sm["r"]:
+            return "%s: outcome differs: impl %s model %s" % (where, si["r"], sm["r"])
+        if len(si["pool"]) != len(sm["pool"]):
+            return "%s: number of objects differs: impl %d model %d" % (where, len(si["pool"]), len(sm["pool"]))
+        o = ops[k]
+        conv = o["k"] == "new" and o["c"]["t"] in ("fs_get", "fv_convert") and si["r"] == "ok"
+        if conv:
+            approx = True
+        last = len(si["pool"]) - 1
+        for j, (oi, om) in enumerate(zip(si["pool"], sm["pool"])):
+            who = "%s: object p%d" % (where, j)
+            if oi["k"] != om["k"]:
+                return "%s: kind differs: impl %s model %s" % (who, oi["k"], om["k"])
+            xi, xm = qparse(oi["x"]), qparse(om["x"])
+            fi = exact(float.fromhex(oi["f"]))
+            if oi["k"] == "frac":
+                if xi != xm:
+                    if (j == last and o["k"] == "new" and o["c"]["t"] == "frac_pow" and o["c"]["e"][0] == "f" and si["r"] == "ok"
+                            and max(abs(xm.numerator), xm.denominator) >= 2 ** 53 and abs(xi - xm) <= Q(1, 10 ** 12) * abs(xm)):
+                        # `n ** 2.0` is a float power: beyond 2**53 it is rounded, and later statements see other integers
+                        _note(ctx, "hist:stopped at a float power beyond 2**53")
+                        return None
+                    return "%s: Fraction differs: impl %s model %s" % (who, xi, xm)
+                if oi["s"] != om["s"]:
+                    return "%s: str differs: impl %r model %r" % (who, oi["s"], om["s"])
+                if not qclose(fi, xm, xm, k=1):
+                    return "%s: float differs: impl %s model %s" % (who, float(fi), float(xm))
+                nd = [xm.numerator, xm.denominator]
+                if oi["parts"] != nd or oi["seq"] != [2, nd, nd[0], nd[1]]:
+                    return "%s: numerator/denominator, len, iteration or indexing differ: impl %s %s model %s" % (who, oi["parts"], oi["seq"], nd)
+                continue
+            ni, nm = qparse(oi["n"]), qparse(om["n"])
+            smax = max(smax, abs(nm), abs(xm))
+            if oi["k"] == "fs" and (oi["cat"] != om["cat"] or oi["unit"] != om["unit"]):
+                return "%s: category/unit differ" % who
+            if ni != nm:
+                if not approx or abs(ni - nm) > Q(1, 10 ** 9) * max(smax, abs(ni)):
+                    return "%s: number part differs: impl %s model %s" % (who, float(ni), float(nm))
+                _note(ctx, "hist:number equal by value (converted)")
+            if xi != xm:
+                if conv and j == last and (abs(xi - xm) <= Q(101, 10 ** 10) or abs(xi - xm) <= Q(1, 10 ** 9) * abs(xm)):
+                    # the converted numerator went through float arithmetic and the SMALL snapping: later statements would
+                    # act on different denominators, so the comparison of this program ends here
+                    _note(ctx, "hist:stopped at a float-rounded converted fraction")
+                    return None
+                return "%s: fraction part differs: impl %s model %s" % (who, xi, xm)
+            vm = nm + xm
+            if ni == nm:
+                if oi.get("negzero"):
+                    _note(ctx, "hist:number is the float -0.0 (text not compared)")
+                elif oi["s"] != om["s"]:
+                    return "%s: str differs: impl %r model %r" % (who, oi["s"], om["s"])
+                if not qclose(fi, vm, max(abs(nm), abs(xm)), k=4):
+                    return "%s: float differs: impl %s model %s" % (who, float(fi), float(vm))
+            elif abs(fi - vm) > Q(1, 10 ** 9) * max(smax, abs(fi)):
+                return "%s: float differs: impl %s model %s" % (who, float(fi), float(vm))
+            pn, pa, pb = oi["parts"]
+            if exact(pn) != ni or [pa, pb] != [xi.numerator, xi.denominator]:
+                return "%s: GetNumber/GetFraction show other parts than number/fraction" % who
+    _note(ctx, "hist:compared to the end")
+    return None
+
+
+def _brief(sn):
+    d = dict(kind=sn["k"], float=float.fromhex(sn["f"]), str=sn["s"], fraction=sn["x"])
+    if "n" in sn:
+        d["number"] = float(qparse(sn["n"]))
+    return d
+
+
+def _dec_ok(spec):
+    return _fin(spec) and (_short(spec) or spec[0] == "i")
+
+
+def _operand_q(o, before):
+    """exact value of the other operand of a Fraction operator, or None when the property does not fix it"""
+    if o["t"] == "ref":
+        return qparse(before[o["k"]]["x"]) if o["k"] < len(before) and before[o["k"]]["k"] == "frac" else None
+    if o["t"] == "frac":
+        return Q(o["x"][0], o["x"][1])
+    if o["t"] == "num" and _in_fraction_domain(o["v"]):
+        return _dec(o["v"])
+    return None
+
+
+def _fracarg_q(fr):
+    if fr["t"] == "frac":
+        return Q(fr["x"][0], fr["x"][1])
+    if fr["t"] == "pair" and _fin(fr["a"]) and _fin(fr["b"]) and _in_fraction_domain(fr["a"]) and fr["b"][0] == "i" and fr["b"][1] != 0:
+        return _dec(fr["a"]) / fr["b"][1]
+    if fr["t"] == "default":
+        return Q(0)
+    return None
+
+
+def _new_denotes(c, new, before):
+    """what a freshly built object must denote (None: no demand, or it holds)"""
+    t = c["t"]
+    sn = _snap(new)
+    x = qparse(sn["x"])
+    val = exact(float.fromhex(sn["f"]))
+
+    def bad(clause, want):
+        return dict(clause=clause, built=_ctor_text(c), got=_brief(sn), want=str(want))
+
+    if t == "fv_new":
+        if not _fin(c["number"]):
+            return None
+        n = exact(_obj(c["number"]))
+        fx = _fracarg_q(c["fr"])
+        if fx is None:
+            return None
+        if qparse(sn["n"]) != n or x != fx:
+            return bad("FractionValue(number, fraction) denotes number + numerator/denominator", "%s + %s" % (n, fx))
+        if not _rel(float(val), float(n + fx), float(n)):
+            return bad("float(FractionValue) = number + numerator/denominator", float(n + fx))
+        return None
+    if t == "cff":
+        if not _fin(c["x"]):
+            return None
+        v = _obj(c["x"])
+        if not _rel(float(val), float(v), float(v)):
+            return bad("CreateFromFloat(x) denotes x", v)
+        return None
+    if t == "fs_new":
+        v = c["v"]
+        if v["t"] == "num":
+            n = exact(_obj(v["v"]))
+            if qparse(sn["n"]) != n or x != 0 or val != n:
+                return bad("a FractionScalar built from a plain float holds that float", n)
+        elif qparse(sn["n"]) != exact(_obj(v["v"]["n"])) or x != Q(v["v"]["x"][0], v["v"]["x"][1]):
+            return bad("a FractionScalar holds the FractionValue it was built from", _show_val(v["v"]))
+        return None
+    if t == "fv_copy":
+        src = before[c["k"]]
+        if any(sn[k] != src[k] for k in ("n", "x", "s", "f")):
+            return bad("a copy denotes what the original denotes", _brief(src))
+        return None
+    if t in ("frac_un", "frac_bin", "frac_pow"):
+        a = qparse(before[c["k"]]["x"])
+        want = None
+        if t == "frac_un":
+            want = {"neg": -a, "abs": abs(a), "inv": (1 / a if a else None), "copy": a}[c["f"]]
+        elif t == "frac_pow":
+            e = c["e"]
+            if e[0] in ("i", "f") and (a != 0 or e[1] >= 0):
+                want = a ** e[1]
+                if e[0] == "f" and max(abs(want.numerator), want.denominator) >= 2 ** 53:
+                    want = None      # a float power beyond 2**53 is rounded
+        else:
+            b = _operand_q(c["o"], before)
+            f = c["f"]
+            if b is not None and not ((f in ("div", "mod") and b == 0) or (f == "rdiv" and a == 0)):
+                want = {"add": lambda: a + b, "radd": lambda: b + a, "sub": lambda: a - b, "rsub": lambda: b - a, "mul": lambda: a * b,
+                        "rmul": lambda: b * a, "div": lambda: a / b, "rdiv": lambda: b / a, "mod": lambda: a % b}[f]()
+        if want is not None and x != want:
+            return bad("Fraction arithmetic agrees with exact rational arithmetic", want)
+        return None
+    if t == "frac_new":
+        a, b = c["a"], c["b"]
+        if _in_fraction_domain(a) and (b is None or (b[0] == "i" and b[1] != 0)):
+            want = _dec(a) / (1 if b is None else b[1])
+            if x != want:
+                return bad("Fraction(a, b) denotes a/b", want)
+    return None
+
+
+def _upd_denotes(m, b4, now, text):
+    """an in-place statement that succeeded changes the part it names, to the value given, and nothing else"""
+    t = m["t"]
+    x0, x1 = qparse(b4["x"]), qparse(now["x"])
+    want_x, want_n = x0, b4.get("n")
+    if t in ("setnum", "setden", "setitem"):
+        v = m["v"]
+        if not _in_fraction_domain(v):
+            return None
+        q = _dec(v)
+        num = t == "setnum" or (t == "setitem" and m["key"] in (0, -2))
+        if not num and q == 0:
+            return None
+        want_x = q / x0.denominator if num else Q(x0.numerator) / q
+    elif t == "setnumber":
+        want_n = qstr(exact(_obj(m["n"])))
+    elif t == "setfraction":
+        want_x = _fracarg_q(m["fr"])
+        if want_x is None:
+            return None
+    if x1 != want_x or now.get("n") != want_n:
+        return dict(clause="an in-place change sets the part it names and leaves the other part", statement=text, before=_brief(b4), after=_brief(now),
+                    want_fraction=str(want_x))
+    return None
+
+
+def _oracle_hist(c, ctx):
+    """C18 on a program, on the real code alone: a statement aimed at one object (or building a new one) leaves what every
+    OTHER object shows - float(), str(), number, fraction, unit - exactly as it was; what is built denotes what it was built from"""
+    ops = c["_t"]["ops"]
+    pool = []
+    for idx, o in enumerate(ops):
+        before = [_snap(p) for p in pool]
+        nb = len(pool)
+        try:
+            if o["k"] == "new":
+                r = _build(o["c"], pool)
+                if r is not None:
+                    pool.append(r)
+            else:
+                _mutate(pool, o["i"], o["m"])
+            ok = True
+        except Exception:
+            ok = False
+        after = [_snap(p) for p in pool]
+        kinds = {j: s["k"] for j, s in enumerate(after)}
+        target = o["i"] if o["k"] == "upd" else None
+        text = _program_text([o], kinds)[0]
+        for j in range(nb):
+            if j != target and before[j] != after[j]:
+                return dict(clause="whatever is done to one object, every other Fraction / FractionValue / FractionScalar keeps denoting its amount",
+                            program=_program_text(ops[:idx + 1], kinds), statement=idx, statement_text=text, changed_object="p%d" % j,
+                            before=_brief(before[j]), after=_brief(after[j]))
+        for j, sn in enumerate(after):
+            if sn["k"] != "frac":
+                want = qparse(sn["n"]) + qparse(sn["x"])
+                if not _rel(float.fromhex(sn["f"]), float(want), float(qparse(sn["n"]))):
+                    return dict(clause="float(value) = number + numerator/denominator", program=_program_text(ops[:idx + 1], kinds), statement=idx,
+                                object="p%d" % j, shows=_brief(sn))
+        if not ok:
+            continue
+        f = None
+        if o["k"] == "new" and len(pool) > nb:
+            f = _new_denotes(o["c"], pool[-1], before)
+        elif o["k"] == "upd" and target is not None and target < nb:
+            f = _upd_denotes(o["m"], before[target], after[target], text)
+        if f:
+            f.update(program=_program_text(ops[:idx + 1], kinds), statement=idx)
+            return f
+    return None
+
+
+def _oracle_more(c, ctx):
+    """`**` with an integer exponent, the in-place setters and the sequence protocol of one Fraction"""
+    op, t = c["op"], c["_t"]
+    x = Q(t["x"][0], t["x"][1])
+    fx = _fr(t["x"])
+    if op == "frac_pow":
+        e = t["e"]
+        if e[0] not in ("i", "f") or (x == 0 and e[1] < 0):
+            return None
+        got = (fx ** _pow_obj(e)).x
+        want = x ** e[1]
+        if e[0] == "f" and max(abs(want.numerator), want.denominator) >= 2 ** 53:
+            return None
+        return None if got == want else dict(clause="Fraction ** integer agrees with exact rational arithmetic", x=str(x), exponent=_pow_obj(e),
+                                             got=str(got), want=str(want))
+    if op == "frac_set":
+        b4 = _snap(fx)
+        try:
+            _mutate([fx], 0, t["m"])
+        except Exception:
+            return None
+        return _upd_denotes(t["m"], b4, _snap(fx), _mut_text(0, t["m"], "frac"))
+    n, d = len(fx), list(fx)
+    if n != 2 or d != [x.numerator, x.denominator] or (fx[0], fx[1], fx[-2], fx[-1]) != (d[0], d[1], d[0], d[1]):
+        return dict(clause="len / iteration / indexing of a Fraction show its numerator and denominator", x=str(x), len=n, items=[str(i) for i in d])
+    return None
+
+
+def _refs(o):
+    """pool indices a statement reads or changes"""
+    if o["k"] == "upd":
+        return [o["i"]]
+    c = o["c"]
+    r = [c["k"]] if "k" in c else []
+    if c["t"] == "frac_bin" and c["o"]["t"] == "ref":
+        r.append(c["o"]["k"])
+    return r
+
+
+def _renumber(o, q):
+    o = copy.deepcopy(o)
+    if o["k"] == "upd":
+        if o["i"] > q:
+            o["i"] -= 1
+        return o
+    c = o["c"]
+    if "k" in c and c["k"] > q:
+        c["k"] -= 1
+    if c["t"] == "frac_bin" and c["o"]["t"] == "ref" and c["o"]["k"] > q:
+        c["o"]["k"] -= 1
+    return o
+
+
+def _drop_stmt(ops, idx):
+    """the program without statement idx (later references renumbered), or None when something refers to what it builds"""
+    o = ops[idx]
+    if o["k"] == "upd":
+        return ops[:idx] + ops[idx + 1:]
+    n0 = len(_run_program(ops[:idx])[-1]["pool"]) if idx else 0
+    n1 = len(_run_program(ops[:idx + 1])[-1]["pool"])
+    if n1 == n0:
+        return ops[:idx] + ops[idx + 1:]
+    q = n0
+    if any(q in _refs(p) for p in ops[idx + 1:]):
+        return None
+    return ops[:idx] + [_renumber(p, q) for p in ops[idx + 1:]]
+
+
+def _shrink_hist(case, failure, ctx):
+    db, ops = case["_t"]["db"], case["_t"]["ops"]
+    if isinstance(failure.get("statement"), int):
+        ops = ops[:failure["statement"] + 1]
+    best = (c_hist(db, ops), failure)
+    f0 = oracle(best[0], ctx)
+    if not f0:
+        return case, failure
+    best = (best[0], f0)
+    progress = True
+    while progress:
+        progress = False
+        ops = best[0]["_t"]["ops"]
+        for idx in range(len(ops) - 2, -1, -1):
+            cand = _drop_stmt(ops, idx)
+            if cand is None:
+                continue
+            c2 = c_hist(db, cand)
+            f2 = oracle(c2, ctx)
+            if f2 and f2.get("clause") == best[1].get("clause"):
+                best = (c2, f2)
+                progress = True
+                break
+    return best
+
+
 SEARCH_SIZES = {
-    "quick": dict(frac_new=3000, frac_ops=6000, fv=3000, str=0, parse=0, cff=0, per_type=12, nvals=1, misc=3000, cfv=6000),
-    "thorough": dict(frac_new=30000, frac_ops=60000, fv=30000, str=0, parse=0, cff=0, per_type=None, nvals=1, misc=30000, cfv=40000),
+    "quick": dict(frac_new=3000, frac_ops=6000, fv=3000, str=0, parse=0, cff=0, per_type=12, nvals=1, misc=3000, cfv=6000,
+                  frac_more=3000, fv_more=2000, hist=3000),
+    "thorough": dict(frac_new=30000, frac_ops=60000, fv=30000, str=0, parse=0, cff=0, per_type=None, nvals=1, misc=30000, cfv=40000,
+                     frac_more=20000, fv_more=10000, hist=30000),
 }
 
 
@@ -1378,6 +2515,16 @@ def _simpler(c):
     elif op == "frac_un":
         for x in SIMPLE_PAIRS:
             yield c_frac_un(c["f"], x)
+    elif op == "frac_pow":
+        for x in SIMPLE_PAIRS:
+            for e in (["i", 2], ["i", -1], ["i", 3], ["f", 2], t["e"]):
+                yield c_frac_pow(x, e)
+    elif op == "frac_set":
+        for x in SIMPLE_PAIRS:
+            yield c_frac_set(x, t["m"])
+    elif op == "frac_seq":
+        for x in SIMPLE_PAIRS:
+            yield c_frac_seq(c["f"], x, t.get("key"))
     elif op == "frac_new":
         for a in (_I(1), _I(3), _F(0.5), _F(1.5), _F(0.25)):
             for b in (None, _I(2), _I(-4)):
@@ -1385,6 +2532,16 @@ def _simpler(c):
 
 
 def shrink(case, failure, ctx):
+    if case["op"] == "hist":
+        from barril.units.unit_database import UnitDatabase
+
+        UnitDatabase.PushSingleton(_db(case, ctx))
+        try:
+            return _shrink_hist(case, failure, ctx)
+        except Exception:
+            return case, failure
+        finally:
+            UnitDatabase.PopSingleton()
     try:
         for c2 in _simpler(case):
             f2 = oracle(c2, ctx)
